@@ -50,6 +50,8 @@ where
             if S::IS_NATIVE_LAYOUT {
                 // Bulk read: memory layout matches T, single memcpy from mmap.
                 let reader = self.create_reader();
+                #[cfg(feature = "verif")]
+                reader.verif_access(HEADER_OFFSET + from * Self::SIZE_OF_T, (stored_to - from) * Self::SIZE_OF_T, "ReadWriteRawVec::read_into_at");
                 let src = unsafe {
                     std::slice::from_raw_parts(
                         reader
